@@ -56,7 +56,9 @@ def _lvalue_add(prog, suffix):
 
 
 def rule_r1_add(ck, prog, f):
-    g = Graph(prog, f, inline=None, sync_lambdas=False)
+    # (the fullness test and the publishing CAS may sit in private helpers of the buffer: they are inlined)
+    from .common import same_class_inline
+    g = Graph(prog, f, inline=same_class_inline(prog, f.cls or ''), sync_lambdas=False, max_depth=2)
     rd = reaching_defs(g)
     pid = f.params[0]['id']
 
@@ -319,7 +321,16 @@ def rule_r2(ck, prog, suffix, g_add, rd_add, full_rel, f_add):
                     o = atomic_op(n)
                     if o and o[0] in ('rmw', 'store') and path_str(access_path(f, n['obj'], None)) == 'this.' + fld:
                         writers.append((f, n))
-            foreign = [(f, n) for (f, n) in writers if f.name != home or (home == 'Consume' and len(f.params) != 2)]
+            def is_home(fx):
+                return fx.name == home and not (home == 'Consume' and len(fx.params) != 2)
+
+            def only_from_home(fx):
+                # a private helper every call of which (in this class) comes from the home member
+                if fx.d.get('access') not in ('private', 'protected'):
+                    return False
+                callers = [x for x in prog.funcs.values() if x.cls == cls_q and x is not fx and any(m['k'] == 'call' and m.get('ck') == fx.key for m in x.nodes)]
+                return bool(callers) and all(is_home(x) for x in callers)
+            foreign = [(f, n) for (f, n) in writers if not is_home(f) and not only_from_home(f)]
             if writers:
                 ck.verdict(not foreign, 'C11.R2', (foreign[0][0] if foreign else writers[0][0]), 'only-%s-writes-%s' % (home, fld), (foreign[0][1] if foreign else writers[0][1]),
                            '%s is written only by %s' % (fld, home) if not foreign else
@@ -573,8 +584,14 @@ def rule_r3(ck, prog, suffix, only_spin=False):
             fs = [f for f in fs if f.params and f.params[0]['t'].endswith('&') and not f.params[0]['t'].endswith('&&')]
         if not fs:
             raise AnalysisBroken('%s not found' % fn)
-        for f in fs:
-            found = False
+        for f0 in fs:
+          found = False
+          # (the operation may sit in a private helper of the same class that the member calls)
+          hosts = [f0] + [prog.funcs[m['ck']] for m in f0.nodes if m['k'] == 'call' and m.get('ck') in prog.funcs and prog.funcs[m['ck']].cls == f0.cls and
+                          prog.funcs[m['ck']].blocks and prog.funcs[m['ck']].d.get('access') in ('private', 'protected')]
+          for f in hosts:
+            if found and f is not f0:
+                break
             for n in f.nodes:
                 o = atomic_op(n)
                 if o and o[1].startswith(opname):
@@ -582,10 +599,10 @@ def rule_r3(ck, prog, suffix, only_spin=False):
                     orders = _order_args(f, n)
                     v = orders[argpos] if len(orders) > argpos else 5
                     ok = v in allowed
-                    ck.verdict(ok, 'C11.R3', f, 'order:%s' % opname, n,
+                    ck.verdict(ok, 'C11.R3', f0, 'order:%s' % opname, n,
                                '%s: %s' % (text, ORD.get(v, v)) + ('' if ok else ' -- weaker than the minimum the C++ memory model needs here (x86 tests cannot see it)'))
-            if not found:
-                ck.violation('C11.R3', f, 'order:%s' % opname, None, 'expected atomic %s not found in %s' % (opname, short(f)))
+          if not found:
+                ck.violation('C11.R3', f0, 'order:%s' % opname, None, 'expected atomic %s not found in %s' % (opname, short(f0)))
     if only_spin:
         return
     # consumer-side loads of head_ (PeekImpl, size, empty): >= acquire
